@@ -48,7 +48,7 @@ func forEachCase(path string, f func(c kv, w *bufio.Writer)) {
 	defer fh.Close()
 	sc := bufio.NewScanner(fh)
 	sc.Buffer(make([]byte, 1<<20), 1<<28)
-	w := bufio.NewWriterSize(os.Stdout, 1<<20)
+	w := bufio.NewWriterSize(realStdout, 1<<20)
 	defer w.Flush()
 	for sc.Scan() {
 		line := sc.Text()
@@ -59,9 +59,17 @@ func forEachCase(path string, f func(c kv, w *bufio.Writer)) {
 	}
 }
 
+// evalfilter's built-ins print to os.Stdout; results go to the real one.
+var realStdout = os.Stdout
+
 func main() {
 	if len(os.Args) < 2 {
 		usage()
+	}
+	if os.Args[1] == "run" {
+		if dn, err := os.OpenFile(os.DevNull, os.O_WRONLY, 0); err == nil {
+			os.Stdout = dn
+		}
 	}
 	switch os.Args[1] {
 	case "dump-tables":
